@@ -198,6 +198,97 @@ pub fn run(ctx: &'static Ctx) {
             l.fail(ctx, idx, v, || icase(h, pos, key, val));
         }
     });
+    // key names derived from the names each host knows (aliases, case variants, components,
+    // prefixes, suffixes): all of them are unknown to the host and must be skipped
+    let derived = |known: &Vec<String>| -> Vec<String> {
+        let mut out: Vec<String> = Vec::new();
+        let all_known: Vec<String> = hosts.iter().flat_map(|h| h.known.clone()).collect();
+        for k in all_known.iter() {
+            out.push(k.to_lowercase());
+            out.push(k.to_uppercase());
+            // camelCase / kebab-case components
+            let mut comp = String::new();
+            let mut comps: Vec<String> = Vec::new();
+            for ch in k.chars() {
+                if (ch.is_uppercase() || ch == '-' || ch == '_') && !comp.is_empty() {
+                    comps.push(comp.clone());
+                    comp.clear();
+                }
+                if ch != '-' && ch != '_' {
+                    comp.push(ch);
+                }
+            }
+            if !comp.is_empty() {
+                comps.push(comp);
+            }
+            for c in &comps {
+                out.push(c.clone());
+                out.push(c.to_lowercase());
+            }
+            for i in 1..k.len() {
+                if k.is_char_boundary(i) {
+                    out.push(k[..i].to_string());
+                    out.push(k[i..].to_string());
+                }
+            }
+            out.push(format!("{}s", k));
+            out.push(format!("_{}", k));
+        }
+        out.sort();
+        out.dedup();
+        out.retain(|n| !known.contains(n));
+        out
+    };
+    let mut dcases: Vec<(usize, usize, String, V)> = Vec::new();
+    for (hi, h) in hosts.iter().enumerate() {
+        for name in derived(&h.known) {
+            for val in [V::Bool(true), V::U(1), V::t("x"), V::M(vec![(V::U(1), V::U(2))])] {
+                for pos in [0, h.len] {
+                    dcases.push((hi, pos, name.clone(), val.clone()));
+                }
+            }
+        }
+    }
+    let dr = &dcases;
+    sweep(ctx, "unknown member insertion: key names derived from known names", dcases.len() as u64, "for every host: lower/upper case, components, every proper prefix and suffix, plural and underscore variants of every member name known to any host (minus the names the host itself knows) x 4 value kinds x first / last position", move |idx, l| {
+        let (hi, pos, name, val) = &dr[idx as usize];
+        let h = &hr[*hi];
+        l.nontrivial += 1;
+        let v = check_insert(h, *pos, &V::t(name), val);
+        l.bump(if v.ok { "identical" } else { "differs" });
+        if !v.ok {
+            l.fail(ctx, idx, v, || icase(h, *pos, &V::t(name), val));
+        }
+    });
+    // unknown values that fill the message up to the 7609-byte limit (and half of it)
+    let mut bcases: Vec<(usize, usize, V)> = Vec::new();
+    for (hi, h) in hosts.iter().enumerate() {
+        let base = h.target.bytes(&h.wire).len();
+        for target_total in [MAX_MSG, MAX_MSG - 1, 3073, 3072, 4096, 1025] {
+            if target_total <= base + 10 {
+                continue;
+            }
+            // key "zz" (3 bytes) + value head (3 bytes for lengths >= 256) + content
+            let content = target_total - base - 3 - 3;
+            for val in [V::B(vec![0x5a; content]), V::T(vec![b'q'; content])] {
+                for pos in [0, h.len] {
+                    bcases.push((hi, pos, val.clone()));
+                }
+            }
+        }
+    }
+    let br = &bcases;
+    sweep(ctx, "unknown member insertion: message-filling values", bcases.len() as u64, "byte and text strings sized so that the whole message is exactly 7609, 7608, 4096, 3073, 3072 or 1025 bytes, first / last position of every host", move |idx, l| {
+        let (hi, pos, val) = &br[idx as usize];
+        let h = &hr[*hi];
+        l.nontrivial += 1;
+        let v = check_insert(h, *pos, &V::t("zz"), val);
+        l.bump(if v.ok { "identical" } else { "differs" });
+        l.bump("message-filling unknown value");
+        if !v.ok {
+            l.fail(ctx, idx, v, || icase(h, *pos, &V::t("zz"), val));
+        }
+    });
     // nesting chains and real-world extras at every position of every host
     let max_depth = if ctx.thorough() { 2000 } else { 16 };
     let mut extra: Vec<(V, V)> = real_world();
@@ -239,7 +330,7 @@ pub fn run(ctx: &'static Ctx) {
             l.fail(ctx, idx, v, || icase(h, pos, key, val));
         }
     });
-    ctx.require_outcomes(&["identical"]);
+    ctx.require_outcomes(&["identical", "message-filling unknown value"]);
     ctx.inner.lock().unwrap().histogram.entry("differs".into()).or_insert(0);
     for h in hosts.iter().take(40) {
         ctx.hist(&format!("host {}", h.label.splitn(2, ':').nth(1).unwrap_or("")), 1);
